@@ -5,6 +5,9 @@ use sfverif::core::Tier;
 use sfverif::runner::{self, Opts};
 use std::path::PathBuf;
 
+#[global_allocator]
+static GLOBAL: sfverif::alloc::CountingAlloc = sfverif::alloc::CountingAlloc;
+
 fn main() {
     runner::install_panic_hook();
     let args: Vec<String> = std::env::args().skip(1).collect();
